@@ -57,6 +57,22 @@ func checkC15(rep *core.Report) {
 	if len(shutdowns) < 4 {
 		r2.Undecided("anchors", token.NoPos, fmt.Sprintf("%d protocols with run+shutdown found, want 4", len(shutdowns)))
 	}
+	// the handler stays installed: nothing un-registers or resets the signals (a second signal during the shutdown
+	// would otherwise kill the process before the dump)
+	{
+		bad := ""
+		for _, fn := range prog.RepoFuncs() {
+			allInstrs(fn, func(ins ssa.Instruction) {
+				if c, ok := ins.(ssa.CallInstruction); ok {
+					switch calleeName(c) {
+					case "os/signal.Stop", "os/signal.Reset", "os/signal.Ignore":
+						bad = calleeName(c) + " in " + core.FuncName(fn) + " at " + prog.Pos(ins.Pos())
+					}
+				}
+			})
+		}
+		r1.Check(bad == "", "main:signals-stay-registered", mainFn.Pos(), "no signal.Stop/Reset/Ignore anywhere", "the signal registration is undone ("+bad+"): a second SIGTERM/SIGINT while shutting down takes the default action, the process dies with a non-zero status before the templates are dumped")
+	}
 	checkCloseDiscipline(prog, r3)
 	// ---- R15.4 ----
 	for _, sd := range shutdowns {
